@@ -91,6 +91,8 @@ _m("C14",
    "exhaustive static analysis over the call graph and effect inventory of every configuration (necessary conditions)")
 
 _m("C18",
+   "(a0) What is verified is what is delivered: the checked reader was opened on the call's own (cache, integrity), is drained to the end of that "
+   "file with no `take(n)` or other adaptor in between, and the file then materialised is that same content path (C01 R2 / R6 re-checked). "
    "(a) In every checked verify-and-materialise function (calls a streaming reader's check() and reaches a Copy/Reflink/HardLink "
    "effect or any other mutation of its destination parameter: create/open-for-write, data writes) every step that creates or "
    "changes the destination is reachable only through the verification gate — or, alternatively, every failing edge of the "
@@ -173,7 +175,7 @@ _m("C09",
 _m("C07",
    "Four structural necessary conditions of lock-free serialisability, NOT the schedule-quantified behaviour: (a) an index "
    "record reaches the file through exactly one write_all call (not write!/BufWriter streaming, not several writes) of one "
-   "self-delimiting, checksummed buffer on a descriptor opened append+create (no write/truncate flags), outside any loop, and the record is appended only after the content publication "
+   "self-delimiting, checksummed buffer on a descriptor opened append+create (no write/truncate flags) and not touched by any call the dependency model does not know (a buffer-size setting can split one write), outside any loop, and the record is appended only after the content publication "
    "succeeded (C04 a); (b) content becomes visible only by rename (persist) of a temp "
    "file uniquely created by new_in({cache}/tmp) of the same cache, or symlink — never by in-place writing or copying; "
    "(c) every directory creation is create_dir_all / DirBuilder.recursive(true), i.e. tolerant of concurrent creation; "
@@ -239,7 +241,7 @@ _m("C05",
    "same-named record field); key equal ∧ unparsable → keep. (a2) Every successful keyed commit appends its record (no success return on the key-is-Some edge without "
    "the insert call). (a4) An insertion appends its record with all-or-error writes only (a plain `write` may accept a prefix and report success: the operation "
    "would succeed while lookups keep returning the older state). (a3) A commit that fails has indexed nothing: after the insertion call no failure return is reachable except the one "
-   "handing back the insertion's own error (a check placed after the append would reject the write and leave its record as the most recent one). "
+   "handing back the insertion's own error — directly, or through `Result::and` / `and_then`, which evaluate the insertion before the verdict is looked at — (a check placed after the append would reject the write and leave its record as the most recent one). "
    "The lookup may equally be written as filter(key) → filter_map(record state) → last() → flatten(), or as a scan from the newest "
    "record that returns at the first deciding one; both are judged against the same oracle table. (b0) The readers the lookups fold over take every valid record in file order (C06 re-checked). (c) 'Absent after removal': the removal clauses of C09 are re-checked — key removals "
    "append the tombstone, a full removal removes the bucket on every success path, clear removes every child. Hence the last matching valid record wins and a tombstone hides "
@@ -337,6 +339,7 @@ _m("C02",
    "content_path(cache, builder.result()), close returns that digest, and the only non-declared integrity "
    "ever indexed is Some(publication result). (e) One-shot writers write exactly their data parameter with one write_all and "
    "declare data.len(). (f) The pre-allocation is reached only when a dominating comparison proves the declared size ≥ 1. "
+   "(j) A function that is given a key sets the keyed writer's key to exactly Some(<that key>) — never None, never chosen by looking at the key's text. "
    "(h) Reads by key resolve the most recent record of the key (the lookup clauses of C05 b, re-checked). (i) The async writer "
    "never loses its staged file on a path that reports success: after the poll functions take() the inner state out of the shared "
    "slot, every non-error return is reached only after the state has been re-assigned.",
@@ -390,7 +393,7 @@ _m("C12",
    "normalised), (2) the set of crate / ssri error variants constructed, (3) which role functions are called with which "
    "parameter positions and which verification primitives are used, (4) how the error of each fallible call is handled "
    "(propagated / matched / tested / discarded — so an error tolerated in one flavour only is reported). (5) the relative order of its mutating steps (an inversion between the copies is reported). The stream "
-   "readers, bucket readers, lookups and commits of every flavour are additionally each compared with the one oracle of C01 R3 / "
+   "readers, bucket readers, lookups, commits and (with link_to) the linkers' read methods of every flavour are additionally each compared with the one oracle of C01 R3 / "
    "C06 / C05 b / C08; a copy that deviates while a sibling does not (or deviates differently) is reported here. Staging details are "
    "normalised away (write_all ≡ write!, flush, metadata().is_ok() ≡ Path::exists()). Differences must match the committed "
    "accepted-differences tables (effects: the async keyed writer never maps memory; handling: close reports through a channel, "
